@@ -201,6 +201,17 @@ def dedupSorted : List BS → List BS
   | [x] => [x]
   | x :: y :: r => if x = y then dedupSorted (y :: r) else x :: dedupSorted (y :: r)
 
+def canonSet (l : List BS) : String := "{" ++ ",".intercalate ((dedupSorted (sortBytes l)).map hex) ++ "}"
+
+def dedupStr : List String → List String
+  | [] => []
+  | [x] => [x]
+  | x :: y :: r => if x == y then dedupStr (y :: r) else x :: dedupStr (y :: r)
+
+/-- contextual tuples as a set -/
+def canonTupleSet (ts : List Tup) : String :=
+  "[" ++ " ".intercalate (dedupStr (isort strLe (ts.map canonTuple))) ++ "]"
+
 /-! ### keys -/
 
 def layoutOf (name : String) : Option (List Field) :=
@@ -215,8 +226,10 @@ def srt := goSort tupleLess
 structure Out where
   /-- what the real code should print -/
   expected : String
-  /-- semantic canonical form of the input -/
+  /-- semantic canonical form of the input (lists as multisets): equal forms MUST give equal keys -/
   canon : String
+  /-- coarser form (lists as sets): equal keys MUST have equal coarse forms; "" = same as `canon` -/
+  weak : String := ""
   cls : String
   nt : Bool := true
 
@@ -259,6 +272,9 @@ def listOfSpecs {α : Type} (spec : String) (f : String → Option α) : Option 
 def invCanon (store model : BS) (ctx : List (BS × PbV)) (ts : List Tup) : String :=
   hex store ++ " " ++ hex model ++ " " ++ canonStruct ctx ++ " " ++ canonTuples ts
 
+def invWeak (store model : BS) (ctx : List (BS × PbV)) (ts : List Tup) : String :=
+  hex store ++ " " ++ hex model ++ " " ++ canonStruct ctx ++ " " ++ canonTupleSet ts
+
 /-- evaluate one (non-pair) case -/
 def eval1 (c : String) : Option Out :=
   match fields c with
@@ -293,6 +309,7 @@ def eval1 (c : String) : Option Out :=
     if ts.length > 12 && !(nodupB (ts.map (fun t => (tupleKey t).foldr (fun x acc => hex x ++ "/" ++ acc) "" |>.toUTF8.toList))) then none
     let v := invariantKey T (xxh64 seed) srt s m fs ts
     pure { expected := toString v.toNat, canon := "inv " ++ toString seed.toNat ++ " " ++ invCanon s m fs ts, cls := "invariant",
+           weak := "inv " ++ toString seed.toNat ++ " " ++ invWeak s m fs ts,
            nt := !ts.isEmpty || !fs.isEmpty }
   | ["sub", seed, store, model, obj, rel, user, ctx, tuples] => do
     let seed ← parseU64 seed; let s ← unhex store; let m ← unhex model
@@ -302,12 +319,14 @@ def eval1 (c : String) : Option Out :=
     let v := invariantKey T (xxh64 seed) srt s m fs ts
     pure { expected := hex (checkKey T L s o r u v),
            canon := "sub " ++ toString seed.toNat ++ " " ++ hex o ++ " " ++ hex r ++ " " ++ hex u ++ " " ++ invCanon s m fs ts,
+           weak := "sub " ++ toString seed.toNat ++ " " ++ hex o ++ " " ++ hex r ++ " " ++ hex u ++ " " ++ invWeak s m fs ts,
            cls := "subproblem-v1" }
   | ["read", seed, store, obj, rel, user, conds] => do
     let seed ← parseU64 seed; let s ← unhex store; let o ← unhex obj; let r ← unhex rel; let u ← unhex user
     let (_, cs) ← parseList conds
     pure { expected := hex (readKey T (xxh64 seed) (layout2Of Gen.Keys.readKeyOps) s o r u cs),
            canon := "read " ++ toString seed.toNat ++ " " ++ hex s ++ " " ++ hex o ++ " " ++ hex r ++ " " ++ hex u ++ " " ++ canonMultiset cs,
+           weak := "read " ++ toString seed.toNat ++ " " ++ hex s ++ " " ++ hex o ++ " " ++ hex r ++ " " ++ hex u ++ " " ++ canonSet cs,
            cls := "iter-read" }
   | ["rut", seed, store, obj, rel, refs, conds] => do
     let seed ← parseU64 seed; let s ← unhex store; let o ← unhex obj; let r ← unhex rel
@@ -317,6 +336,8 @@ def eval1 (c : String) : Option Out :=
            -- a restriction means what it renders to (`type`, `type#relation`, `type:*`)
            canon := "rut " ++ toString seed.toNat ++ " " ++ hex s ++ " " ++ hex o ++ " " ++ hex r ++ " " ++
              canonMultiset (rs.map refString) ++ " " ++ canonMultiset cs,
+           weak := "rut " ++ toString seed.toNat ++ " " ++ hex s ++ " " ++ hex o ++ " " ++ hex r ++ " " ++
+             canonSet (rs.map refString) ++ " " ++ canonSet cs,
            cls := "iter-rut" }
   | ["rswu", seed, store, otype, rel, uf, oids, conds] => do
     let seed ← parseU64 seed; let s ← unhex store; let o ← unhex otype; let r ← unhex rel
@@ -329,6 +350,8 @@ def eval1 (c : String) : Option Out :=
            -- nil and empty object-id sets are the same query by the key function's contract (F7)
            canon := "rswu " ++ toString seed.toNat ++ " " ++ hex s ++ " " ++ hex o ++ " " ++ hex r ++ " " ++
              canonMultiset (us.map subjectString) ++ " " ++ canonMultiset vals ++ " " ++ canonMultiset cs,
+           weak := "rswu " ++ toString seed.toNat ++ " " ++ hex s ++ " " ++ hex o ++ " " ++ hex r ++ " " ++
+             canonSet (us.map subjectString) ++ " " ++ canonSet vals ++ " " ++ canonSet cs,
            cls := "iter-rswu" }
   | _ => none
 
@@ -380,16 +403,18 @@ def step (c impl : String) : String :=
       | some a, some b =>
         -- the property first (it does not depend on the model's encoder): real keys equal <=> inputs semantically equal
         let semEq := a.canon == b.canon
+        -- lists with repeated elements denote the same filter / the same tuple set: either outcome is acceptable
+        let weakEq := (if a.weak == "" then a.canon else a.weak) == (if b.weak == "" then b.canon else b.weak)
         let keyEq := ia == ib
         if semEq && !keyEq then
           (if hasDupSortKeys ca then
             specViol "F24 different keys for the same contextual tuples in another order: TupleKeys.Less is not strict on equal (object,relation,user,condition) so tuples that differ only in their condition context are hashed in input order"
            else specViol ("different keys for semantically equal inputs (" ++ a.cls ++ ")"))
-        else if !semEq && keyEq then
+        else if !weakEq && keyEq then
           specViol ("EQUAL KEYS for semantically different inputs (" ++ a.cls ++ " / " ++ b.cls ++ "): a wrong cache hit is possible")
         else if ia != a.expected then modelDiff ("A:" ++ a.expected)
         else if ib != b.expected then modelDiff ("B:" ++ b.expected)
-        else ok ("pair-" ++ a.cls ++ (if semEq then "-equal" else "-distinct"))
+        else ok ("pair-" ++ a.cls ++ (if semEq then "-equal" else if weakEq then "-repeated-elements" else "-distinct"))
       | _, _ => "SKIP unparsable-pair"
     | _, _ => "SKIP unparsable-pair"
   else if c.startsWith "v2req " then v2Step c impl
